@@ -6,6 +6,7 @@ THEOREMS = ["Lou.C10.optargs_arrays", "Lou.C10.optargs_typeform", "Lou.C10.optar
             "Lou.C10.wrapper_string", "Lou.C10.idEngine_blind",
             "Lou.CurBlind.translate_cursor_blind", "Lou.CurBlind.modelEngine_blind", "Lou.CurBlind.model_optargs",
             "Lou.ModelEngine.callFwd_eq",
+            "Lou.CurBlindC.translateC_cursor_blind", "Lou.CurBlindC.engineFor_blind", "Lou.CurBlindC.whole_call_optargs",
 ]
 
 CLAIM = dict(
